@@ -5,11 +5,12 @@ import FcpModel
 Three links.  (1) the reflection binary carries the schema losslessly (C12's theorems:
 `reflect` then `unchain` gives back every struct, field, type chain and enum), (2) the
 run-time decoder walks the same type chain with one shared bit cursor, (3) the run-time
-encoder encodes every piece into a fresh buffer and appends whole bytes.
+encoder writes into one shared buffer, every scalar through `PushWord` on a 64-bit carrier.
 
-(2) holds for every type.  (3) equals the static encoder exactly on byte-granular types and
-differs otherwise: that is the recorded finding `dynamic-encode-not-bit-packed`, proved
-below as a counterexample, so the encode half is `…_partial`.
+(2) and (3) are equalities with the generated codec for every type.  Until the repair
+recorded in known_findings.json (`dynamic-encode-not-bit-packed`, fixed) the encoder padded
+every piece to whole bytes; that behaviour is kept as `Cpp.oldDynEnc` with the counterexample
+that witnessed the defect.
 -/
 namespace Fcp
 open Cpp
@@ -19,34 +20,36 @@ for every supported type (signed negatives, sub-byte fields and every container 
 theorem C13_decode_same (t : Ty) (h : Widths t = true) (bs : Bits) : dynDec t bs = cppDec t bs := by
   rw [dynDec_eq t h, cppDec_eq t h]
 
-/-- **encode, partial**: on byte-granular types the run-time encoder produces the static
-(= canonical) bytes for every in-range value.  Full statement (all types) is false of the
-current code: `C13_encode_counterexample`. -/
-theorem C13_encode_same_partial (t : Ty) (v : Val) (hg : ByteGranular t = true) (h : wf t v = true) :
-    dynEnc t v = pack (cppEnc t v) := by
-  rw [cppEnc_eq t v h]; exact (dynEnc_eq t v hg h).1
+/-- **encode, full**: the run-time encoder produces the bytes of the generated encoder, hence
+the canonical bytes, for every type and every in-range value (sub-byte fields, signed
+negatives and every container kind included) -/
+theorem C13_encode_same (t : Ty) (v : Val) : pack (dynEnc t v) = pack (cppEnc t v) := by
+  rw [dynEnc_eq_cppEnc]
 
-/-- the recorded finding: `struct { a: u3, b: u5 }` with `{a: 5, b: 1}` — static `0d`,
-run-time `05 01` -/
-theorem C13_encode_counterexample :
+theorem C13_encode_canonical (t : Ty) (v : Val) (h : wf t v = true) : pack (dynEnc t v) = encBytes t v := by
+  rw [dynEnc_eq_cppEnc, cppEnc_eq t v h]; rfl
+
+/-- the repaired defect, for the record: before the fix `struct { a: u3, b: u5 }` with
+`{a: 5, b: 1}` encoded as `05 01` at run time and `0d` statically -/
+theorem C13_old_encoder_counterexample :
     let t : Ty := .field "a" 0 (.uint 3) (.field "b" 1 (.uint 5) .unit)
     let v : Val := .cons (.int 5) (.cons (.int 1) .nil)
-    wf t v = true ∧ pack (cppEnc t v) = [13] ∧ dynEnc t v = [5, 1] := by decide
+    wf t v = true ∧ pack (cppEnc t v) = [13] ∧ oldDynEnc t v = [5, 1] ∧ pack (dynEnc t v) = [13] := by decide
 
 /-- enum width: the run-time formula `max(1, ⌈log₂(max+1)⌉)` is the static width -/
 theorem C13_enum_width (m b : Nat) (hm : 1 ≤ m) (hb : 1 ≤ b) (h1 : 2 ^ (b - 1) < m + 1) (h2 : m + 1 ≤ 2 ^ b) :
     b = Nat.log2 m + 1 := ceilLog_unique m b hm hb h1 h2
 
-/-- on byte-granular types encode-then-decode through the run-time codec is the identity -/
-theorem C13_dynamic_roundtrip_partial (t : Ty) (v : Val) (hw : Widths t = true) (hg : ByteGranular t = true)
-    (h : wf t v = true) : (dynDec t (unpack (dynEnc t v))).map (·.1) = some v := by
-  rw [dynDec_eq t hw, (dynEnc_eq t v hg h).1]
+/-- encode-then-decode through the run-time codec is the identity, for every supported type -/
+theorem C13_dynamic_roundtrip (t : Ty) (v : Val) (hw : Widths t = true) (h : wf t v = true) :
+    (dynDec t (unpack (pack (dynEnc t v)))).map (·.1) = some v := by
+  rw [dynDec_eq t hw, dynEnc_eq_cppEnc, cppEnc_eq t v h]
   exact decBytes_encBytes t v h
 
-/-! non-vacuity: signed negatives in byte-wide fields, nested containers -/
-def C13_t : Ty := .field "a" 0 (.sint 8) (.field "b" 1 (.dyn (.opt (.sint 16))) .unit)
-def C13_v : Val := .cons (.int (-128)) (.cons (.cons (.some (.int (-2))) (.cons .none .nil)) .nil)
-example : wf C13_t C13_v = true ∧ Widths C13_t = true ∧ ByteGranular C13_t = true := by decide
-example : dynEnc C13_t C13_v = [128, 2, 0, 0, 0, 1, 254, 255, 0] := by decide
+/-! non-vacuity: signed negatives in sub-byte fields, nested containers -/
+def C13_t : Ty := .field "a" 0 (.sint 3) (.field "b" 1 (.dyn (.opt (.sint 5))) .unit)
+def C13_v : Val := .cons (.int (-4)) (.cons (.cons (.some (.int (-2))) (.cons .none .nil)) .nil)
+example : wf C13_t C13_v = true ∧ Widths C13_t = true ∧ ByteGranular C13_t = false := by decide
+example : pack (dynEnc C13_t C13_v) = [20, 0, 0, 0, 8, 240, 0] := by decide
 
 end Fcp
